@@ -115,6 +115,14 @@ func (c *Conn) cut(reset bool, why string) {
 		c.mu.Unlock()
 		return
 	}
+	c.mu.Unlock()
+	kind := "eof"
+	if reset {
+		kind = "reset"
+	}
+	// record first, then make it visible to the client (see releasePart)
+	c.s.log(Rec{Kind: "cut", Conn: c.k, S: kind, Err: why})
+	c.mu.Lock()
 	if reset {
 		c.peerClosed = 2
 		c.rbuf = nil
@@ -123,11 +131,6 @@ func (c *Conn) cut(reset bool, why string) {
 	}
 	c.cond.Broadcast()
 	c.mu.Unlock()
-	kind := "eof"
-	if reset {
-		kind = "reset"
-	}
-	c.s.log(Rec{Kind: "cut", Conn: c.k, S: kind, Err: why})
 	c.s.broker.connGone(c)
 }
 
@@ -411,16 +414,22 @@ func (c *Conn) releasePart(m int, p *Pkt, raw []byte, class string, parts [][]by
 		}
 		return
 	}
-	if !c.deliver(parts[i]) {
+	if !c.alive() {
 		if i == 0 {
 			s.log(Rec{Kind: "lostb2c", Conn: c.k, N: m, P: p})
 		}
 		return
 	}
+	// the record precedes the effect: whatever the client does with these bytes
+	// is logged after the delivery even if the scheduler goroutine is descheduled
+	// right here
+	if i == len(parts)-1 {
+		s.log(Rec{Kind: "rx", Conn: c.k, N: m, P: p, S: class, V: int64(len(raw))})
+	}
+	c.deliver(parts[i])
 	if i != len(parts)-1 {
 		return
 	}
-	s.log(Rec{Kind: "rx", Conn: c.k, N: m, P: p, S: class, V: int64(len(raw))})
 	c.afterRx(m, eofAfter)
 }
 
